@@ -598,3 +598,31 @@ Proof.
   unfold go_join, path_join2. destruct a as [|x a], b as [|y b]; cbn [forallb andb join_elems]; try reflexivity;
     rewrite go_clean_is_path_clean; try reflexivity. apply path_clean_trailing_slash.
 Qed.
+
+(* `normal` in plain words *)
+Lemma is_dotdot_eq s : is_dotdot s = true <-> s = [dot; dot].
+Proof.
+  split; [|intros ->; reflexivity]. destruct s as [|c [|d [|e r]]]; cbn [is_dotdot]; try discriminate.
+  intros H. apply andb_true_iff in H. destruct H as [A B]. apply N.eqb_eq in A, B. subst. reflexivity.
+Qed.
+
+Lemma dd_front_spec l : dd_front l = true -> forall a s b, l = a ++ s :: b -> s = [dot; dot] -> Forall (fun x => x = [dot; dot]) a.
+Proof.
+  intros H a s b -> Hs. apply is_dotdot_eq in Hs. pose proof (dd_front_app_dd _ _ _ H Hs) as F.
+  apply Forall_forall. intros x Hx. apply is_dotdot_eq. rewrite forallb_forall in F. apply F. exact Hx.
+Qed.
+
+Lemma normal_spelled rooted l : normal rooted l ->
+  Forall (fun s => s <> [] /\ s <> [dot] /\ ~ In slash s) l /\
+  (rooted = true -> Forall (fun s => s <> [dot; dot]) l) /\
+  (rooted = false -> forall a s b, l = a ++ s :: b -> s = [dot; dot] -> Forall (fun x => x = [dot; dot]) a).
+Proof.
+  intros [Hg Hd]. split; [|split].
+  - eapply Forall_impl; [|exact Hg]. intros s (A & B & C). repeat split.
+    + intros ->. discriminate A.
+    + intros ->. discriminate B.
+    + exact C.
+  - intros ->. apply Forall_forall. intros s Hs E. rewrite forallb_forall in Hd. specialize (Hd s Hs).
+    unfold nd in Hd. apply is_dotdot_eq in E. rewrite E in Hd. discriminate.
+  - intros ->. apply dd_front_spec. exact Hd.
+Qed.
